@@ -344,9 +344,18 @@ func drvNullRefs(r *rand.Rand, n int) [][]Action {
 				h = append(h, Action{A: "Add", Tree: dictDecl([2]*Node{qualStmt(p, st.sym(p)), nullStmt()})})
 			case 1: // pair omitted because its key is null
 				h = append(h, Action{A: "Add", Tree: dictDecl([2]*Node{nullStmt(), qualStmt(p, st.sym(p))})})
-			case 2: // one live pair and one omitted pair
-				h = append(h, Action{A: "Add", Tree: dictDecl([2]*Node{qualStmt(p, st.sym(p)), qualStmt(q, st.sym(q))},
-					[2]*Node{{K: "stmt", Items: []*Node{{K: "tok", T: "lit", V: "1"}}}, nullStmt()})})
+			case 2: // one live pair and one omitted pair (the omitted pair's key / value references a path of its own)
+				one := &Node{K: "stmt", Items: []*Node{{K: "tok", T: "lit", V: "1"}}}
+				switch r.Intn(4) {
+				case 0:
+					h = append(h, Action{A: "Add", Tree: dictDecl([2]*Node{qualStmt(p, st.sym(p)), qualStmt(q, st.sym(q))}, [2]*Node{one, nullStmt()})})
+				case 1: // omitted: qualified key, null value
+					h = append(h, Action{A: "Add", Tree: dictDecl([2]*Node{one, one}, [2]*Node{qualStmt(q, st.sym(q)), nullStmt()})})
+				case 2: // omitted: null key, qualified value
+					h = append(h, Action{A: "Add", Tree: dictDecl([2]*Node{nullStmt(), qualStmt(q, st.sym(q))}, [2]*Node{qualStmt(p, st.sym(p)), one})})
+				default: // omitted: both sides qualified, one of them under a null wrapper
+					h = append(h, Action{A: "Add", Tree: dictDecl([2]*Node{qualStmt(q, st.sym(q)), &Node{K: "stmt", Items: []*Node{nullStmt()}}}, [2]*Node{one, qualStmt(p, st.sym(p))})})
+				}
 			case 3:
 				h = append(h, Action{A: "Add", Tree: varQ(p, st.sym(p))})
 			case 4: // a hint for a path that is never referenced
